@@ -238,6 +238,10 @@ class RandomExprs:
         if t == 'bool':
             return {'t': 'bool', 'n': r.randint(0, 1), 'd': 1, 's': '', 'l': []}
         if t == 'obj':
+            if r.random() < 0.35:
+                # Python-equal but distinct BQL values next to each other (TRUE / 1, FALSE / 0)
+                return r.choice([{'t': 'bool', 'n': 1, 'd': 1, 's': '', 'l': []}, {'t': 'int', 'n': 1, 'd': 1, 's': '', 'l': []},
+                                 {'t': 'bool', 'n': 0, 'd': 1, 's': '', 'l': []}, {'t': 'int', 'n': 0, 'd': 1, 's': '', 'l': []}])
             return self.value(r.choice(['int', 'dec', 'str', 'date', 'bool']), 0)
         raise ValueError(t)
 
@@ -336,8 +340,10 @@ class RandomExprs:
                 return {'k': 'call', 'f': r.choice(['upper', 'lower']), 'args': [E('str', d)]}
             if k < 0.7:
                 return {'k': 'call', 'f': 'substr', 'args': [E('str', d), E('int', 0), E('int', 0)]}
-            if k < 0.85:
+            if k < 0.82:
                 return {'k': 'call', 'f': 'coalesce', 'args': [E('str', d) for _ in range(r.randint(1, 3))]}
+            if k < 0.94:
+                return {'k': 'call', 'f': 'str', 'args': [E(r.choice(['obj', 'obj', 'int', 'bool', 'str']), d)]}
             return self.leaf('str')
         if t == 'date':
             k = r.random()
